@@ -869,8 +869,9 @@ example : ∃ m', T.stepM exS.mesh (.translate [1, 2] true) = .ok (m', m') := (i
 example : ∃ m', T.stepM exS.mesh (.scale (.vec [-2, 1/2]) none true) = .ok (m', m') :=
   (inplace_accepted exS exS_wf rfl).2 _ _ rfl rfl (by decide +kernel)
 
-/-- the constructor's final test is reachable: a cell larger than the region, 1e16 from the origin -/
-example : (Mesh.mkCell? { pmin := [10000000000000000], pmax := [10000000000000002], dims := ["x"], units := ["m"], tol := defaultTol } [10000]).toOption.map (·.n) = some [0] := by decide +kernel
+/-- the constructor's final test is reachable: a cell larger than the region, 1e16 from the origin
+(the shared `Mesh.mkCell?` has the `n >= 1` test itself since repo fix 5c501c0e was modelled there) -/
+example : (Mesh.mkCell? { pmin := [10000000000000000], pmax := [10000000000000002], dims := ["x"], units := ["m"], tol := defaultTol } [10000]).toOption.map (·.n) = none := by decide +kernel
 example : (mkCellNow? { pmin := [10000000000000000], pmax := [10000000000000002], dims := ["x"], units := ["m"], tol := defaultTol } [10000]).toOption.map (·.n) = none := by decide +kernel
 
 example : Region.mk? [0, 3] [1, 1] (some ["x", "t"]) none (1/10) = .ok { pmin := [0, 1], pmax := [1, 3], dims := ["x", "t"], units := ["m", "m"], tol := 1/10 } := by decide +kernel
